@@ -463,6 +463,9 @@ def _f_where(cond, x=None, y=None):
     out = _np.empty(c.shape, dtype=object)
     for i in _np.ndindex(c.shape):
         ci = c[i]
+        if isinstance(ci, R) and ci is xa[i] and isinstance(ya[i], R) and ya[i].concrete and ya[i].v == 0:
+            out[i] = xa[i]  # where(x, x, 0) == x exactly
+            continue
         if isinstance(ci, R):  # truthiness of a number: != 0
             ci = ci != 0
         elif not isinstance(ci, SymBool):
